@@ -22,7 +22,7 @@ POOL_MAX = ("max_pool1d", "max_pool2d")
 
 
 def gen_cases(tier, seed):
-    cases = nncommon.build_cases(tier, seed, "c02", budget={"quick": 160, "thorough": 4000}[tier])
+    cases = nncommon.build_cases(tier, seed, "c02", budget={"quick": 280, "thorough": 4000}[tier])
     out = []
     for c in cases:
         n = c["n"]
